@@ -1,6 +1,7 @@
 import CashewsVerif.Driver.Proto
 import CashewsVerif.Model.TxCtx
 import CashewsVerif.Spec.TxSpec
+import CashewsVerif.Spec.TxMatchSpec
 /-
 Driver logic for C03 / C04 (executables: Drivers/C03.lean, Drivers/C04.lean).  One case = an initial store, then a task's events (blocks, commands, explicit
 rollback / commit).  Every event is run on the transaction-context model (`Ctx`, the code's
@@ -17,6 +18,14 @@ behaviour) and every command also on a *direct* copy of the store (`Mem.step`, n
                                 `Exception` / by `asyncio.CancelledError` delivered at a suspension point inside the body
   rollback | commitnow          explicit `tx.rollback()` / `tx.commit()` (anywhere in a body, commands may follow)
   <command>                     as in the C01 driver
+  delmatch <pat>                `delete_match(pat)`   -- pattern commands (Model/TxMatch.lean), inside or outside a block;
+  scan <pat>                    `scan(pat)`           -- <pat> travels as `x` + its code points in decimal joined by `.`
+  getmatch <pat>                `get_match(pat)`      -- (`x107.42` = "k*", `x` = the empty pattern), as in Drivers/C13.lean
+
+Key names (`keyName`): the user keys 0, 2, 4 are "ka", "kb1", "kb2" (other even keys: "u<k>"); the reserved key 1 is
+":serializable:lock" and the reserved key k + 3 is ":tx_lock:" ++ name of the user key k.
+Answers of `scan`: `ks=<ids, ascending>` (`ks=` when nothing was yielded, `?dup` appended if a key was yielded twice);
+of `get_match`: `kv=<id>=<val>;...` in ascending order of the ids.
 
 Answers: `tx=<out> direct=<out> b=<backend live view> d=<direct live view>`; the lines that end a
 transaction segment (outermost exit, explicit rollback / commit) add `ndc=T|F` — `NoDeadlineCrossed`
@@ -55,6 +64,46 @@ def parseOp? : List String → Option Op
   | ["adv", dt] => do pure (.adv (← dt.toNat?))
   | ["purge"] => some .purge
   | _ => none
+
+/-- the text of a model key (harness/txhist.py uses the same naming) -/
+def keyName (k : Nat) : List Char :=
+  if k = 0 then "ka".toList else if k = 2 then "kb1".toList else if k = 4 then "kb2".toList
+  else if k = 1 then ":serializable:lock".toList
+  else if k % 2 = 0 then ("u" ++ toString k).toList
+  else if k = 3 then ":tx_lock:ka".toList else if k = 5 then ":tx_lock:kb1".toList else if k = 7 then ":tx_lock:kb2".toList
+  else (":tx_lock:u" ++ toString (k - 3)).toList
+
+/-- `x<code>.<code>...` -/
+def decodeStr? (s : String) : Option (List Char) :=
+  match s.toList with
+  | 'x' :: rest =>
+    if rest.isEmpty then some []
+    else allSome (((String.ofList rest).splitOn ".").map fun w => w.toNat?.map Char.ofNat)
+  | _ => none
+
+def parseCmd? : List String → Option TxCmd
+  | ["delmatch", p] => (decodeStr? p).map .deleteMatch
+  | ["scan", p] => (decodeStr? p).map .scan
+  | ["getmatch", p] => (decodeStr? p).map .getMatch
+  | ws => (parseOp? ws).map .op
+
+def insertNat (x : Nat) : List Nat → List Nat
+  | [] => [x]
+  | y :: ys => if x ≤ y then x :: y :: ys else y :: insertNat x ys
+
+def insertPair (x : Nat × Option Val) : List (Nat × Option Val) → List (Nat × Option Val)
+  | [] => [x]
+  | y :: ys => if x.1 ≤ y.1 then x :: y :: ys else y :: insertPair x ys
+
+def showCOut : COut → String
+  | .out o => showOut o
+  | .keys ks =>
+    let sorted := ks.foldr insertNat []
+    "ks=" ++ ",".intercalate (sorted.map toString) ++ (if ks.eraseDups.length = ks.length then "" else ",?dup")
+  | .pairs kvs =>
+    let sorted := kvs.foldr insertPair []
+    "kv=" ++ ";".intercalate (sorted.map fun kv => s!"{kv.1}={showOptVal kv.2}")
+      ++ (if (kvs.map (·.1)).eraseDups.length = kvs.length then "" else ";?dup")
 
 def parseMode? (s : String) : Option TxMode :=
   if s = "fast" then some .fast else if s = "locked" then some .locked
@@ -148,15 +197,16 @@ def step (s : St) (line : String) : St × String :=
     let (s2, n) := closeSeg { s with ctx := c' }
     ({ s2 with direct := s2.ctx.st.b }, s!"tx={showOut o} {n} " ++ views s2)
   | ws =>
-    match parseOp? ws with
+    match parseCmd? ws with
     | none => (s, "bad-op")
-    | some op =>
-      let (c', o) := s.ctx.step (.cmd op)
-      let (d', o') := s.direct.step op
+    | some cmd =>
+      -- a regular command `.op o` is `Ctx.step (.cmd o)` / `Mem.step o` (`Ctx.stepC`, `Mem.stepC` route it there)
+      let (c', o) := s.ctx.stepC keyName cmd
+      let (d', o') := s.direct.stepC keyName cmd
       let inBlock := !s.ctx.frames.isEmpty
-      let s' := { s with ctx := c', direct := d', acc := if inBlock then s.acc ++ [op] else s.acc,
+      let s' := { s with ctx := c', direct := d', acc := if inBlock then s.acc ++ [cmd.timing] else s.acc,
                          b0 := if inBlock then s.b0 else c'.st.b }
-      (s', s!"tx={showOut o} direct={showOut o'} " ++ views s')
+      (s', s!"tx={showCOut o} direct={showCOut o'} " ++ views s')
 
 def run : IO Unit :=
   mainLoop step { ctx := Ctx.init (Mem.init 1000) 80, direct := Mem.init 1000, b0 := Mem.init 1000, acc := [] }
